@@ -160,6 +160,11 @@ func c17Ops() []c17Op {
 		{"A:subscribe", func(c *c17World) {
 			c.a.Deliver(c.a.SubscribeCall(cliAddr("A", "e2f1", true), srvAddr("L2lc", true), model.FeatureTypeTypeLoadControl))
 		}},
+		{"A:subscribe-again-after-reannouncement", func(c *c17World) {
+			// the peer has answered a discovery read once more (its feature objects were replaced, the registry entries
+			// still hold the old ones) and repeats a subscription request it already holds
+			c.a.Deliver(c.a.SubscribeCall(cliAddr("A", "e1f1", true), srvAddr("L1lc", true), model.FeatureTypeTypeLoadControl))
+		}},
 		{"A:unbind+bind", func(c *c17World) {
 			c.a.Deliver(c.a.UnbindCall(cliAddr("A", "e1f1", true), srvAddr("L1lc", true)))
 			c.a.Deliver(c.a.BindCall(cliAddr("A", "e1f2", true), srvAddr("L1lc", true), model.FeatureTypeTypeLoadControl))
@@ -375,6 +380,8 @@ var c17ApprovalGroup = map[string]bool{"local:approve-second-write-once": true, 
 var c17Long = map[string]bool{"local:heartbeat-without-feature": true, "local:heartbeat-stop+start": true, "local:application-handler-reenters": true,
 	"local:RemoveRemoteDeviceConnection(B)": true}
 
+var c17AgainGroup = map[string]bool{"local:readers": true, "local:SetData": true, "B:subscribe": true}
+
 var c17ReenterGroup = map[string]bool{"A:write": true, "local:RemoveRemoteDeviceConnection(B)": true, "local:application-handler-reenters": true}
 
 func c17Scenarios(thorough bool) []*engine.SScenario {
@@ -399,6 +406,18 @@ func c17Scenarios(thorough bool) []*engine.SScenario {
 				for _, s := range sel {
 					if ops[s].name == "local:application-handler-reenters" {
 						c.withReentrantHandler()
+						break
+					}
+				}
+				for _, s := range sel {
+					if ops[s].name == "A:subscribe-again-after-reannouncement" {
+						// entity [1] is announced again by a partial notification: its feature objects are replaced,
+						// the entity object stays
+						st := model.NetworkManagementStateChangeTypeAdded
+						cmd := model.CmdType{Function: util.Ptr(model.FunctionTypeNodeManagementDetailedDiscoveryData), Filter: []model.FilterType{*model.NewFilterTypePartial()},
+							NodeManagementDetailedDiscoveryData: c.a.DiscoveryData([]world.EntSpec{clientEntity([]uint{1})}, false, &st)}
+						c.a.Deliver(c.a.Datagram(c.a.NM(), world.LocalNM(), model.CmdClassifierTypeNotify, false, nil, cmd))
+						rt.WaitIdle()
 						break
 					}
 				}
@@ -433,6 +452,11 @@ func c17Scenarios(thorough bool) []*engine.SScenario {
 				continue
 			}
 			// the re-entering application handler: against a message of a peer, a removal and itself
+			// the repeated request after a re-announcement: against readers, a data change, and the other peer's request
+			const ra = "A:subscribe-again-after-reannouncement"
+			if (ops[i].name == ra && !c17AgainGroup[ops[j].name]) || (ops[j].name == ra && !c17AgainGroup[ops[i].name]) {
+				continue
+			}
 			const re = "local:application-handler-reenters"
 			if (ops[i].name == re && !c17ReenterGroup[ops[j].name]) || (ops[j].name == re && !c17ReenterGroup[ops[i].name]) {
 				continue
